@@ -109,6 +109,19 @@ func (s *V2SessionlessTransport) newV2Session(ctx context.Context, opts *V2Sessi
 		return nil, err
 	}
 
+	// we proposed exactly one algorithm of each type, so the BMC must confirm
+	// precisely those; anything else - including a weaker algorithm - must not
+	// silently become the basis of the session
+	selectedSuite := ipmi.CipherSuite{
+		AuthenticationAlgorithm:  openSessionRsp.AuthenticationPayload.Algorithm,
+		IntegrityAlgorithm:       openSessionRsp.IntegrityPayload.Algorithm,
+		ConfidentialityAlgorithm: openSessionRsp.ConfidentialityPayload.Algorithm,
+	}
+	if selectedSuite != *cipherSuite {
+		return nil, fmt.Errorf("managed system selected cipher suite %v, but %v was proposed",
+			selectedSuite, *cipherSuite)
+	}
+
 	// RAKP Message 1, 2
 	remoteConsoleRandom := [16]byte{}
 	if _, err := rand.Read(remoteConsoleRandom[:]); err != nil {
